@@ -30,12 +30,33 @@ def gen_case(rng, idx, backend, dups):
     return lines
 
 
+def gen_bigpurge(rng, idx, n, directive):
+    """a purge of THOUSANDS of tombstones that fails (entirely, or after part of them): whatever the storage did not remove is a
+    tombstone of the set again - whether the actor hands the ids over in one call or in several"""
+    from checks.actorgen import pack, T0, F_MS
+    t0 = T0 + rng.below(10 ** 5) * 4
+    lines = ['case %d actor mem b%d' % (idx, idx)]
+    lines.append('mdel 0 ' + ','.join('%d:%d' % (i + 1, pack(t0, 0, 1)) for i in range(n)))
+    lines.append('set 0 900001 %d aa' % pack(t0 + 2 * F_MS, 0, 1))
+    lines.append('set 1 900002 %d bb' % pack(t0 + 2 * F_MS + 4, 0, 1))
+    lines.append('state')
+    if directive == 'fail':
+        lines.append('purge fail')
+    else:
+        done = sorted({rng.below(n) for _ in range(rng.choice([1, 7, n // 3]))} | ({0} if rng.chance(1, 2) else set()))
+        lines.append('purge w=' + ','.join(str(j) for j in done))
+    lines += ['state', 'purge', 'state', 'dups 0', 'end']
+    return lines
+
+
 def generate(rng, tier):
     n = dict(quick=600, thorough=40000, search=15000)[tier]
     cases = []
     for i in range(n):
         backend = 'sqlite' if (tier != 'quick' and i % 20 == 0) else 'mem'
         cases.append(gen_case(rng.fork(), i, backend, dups=(i % 3 == 2)))
+    for k, (m, d) in enumerate([(1100, 'fail'), (2100, 'w'), (3000, 'fail'), (1025, 'w')] if tier != 'thorough' else [(m, d) for m in (1023, 1024, 1025, 1100, 2049, 3000, 4097, 9000) for d in ('fail', 'w', 'w')]):
+        cases.append(gen_bigpurge(rng.fork(), n + k, m, d))
     return cases
 
 
